@@ -130,7 +130,11 @@ public:
     virtual int checkEvents(int timeout) = 0;
 };
 class Packable;
+#ifdef CV_NATIVE
+#include <iosfwd>
+#else
 namespace std { class ostream; }
+#endif
 
 class AsyncCall;
 class CallDialer
